@@ -153,6 +153,75 @@ def normalise_updates(fn):
     return fn
 
 
+def normalise_counting_whiles(fn):
+    """Source normalisation:  i = c; while i < N: body; i += 1   (i assigned nowhere else in the loop, no continue, i not read
+    after the loop, N not changed by the body)  is  for i in range(c, N): body  (range(N) when c is 0; <= gives N + 1)."""
+    import copy
+    if not any(isinstance(n, ast.While) for n in ast.walk(fn)):
+        return fn
+    fn = copy.deepcopy(fn)
+
+    def convert(block, later_blocks):
+        out = []
+        for k, st in enumerate(block):
+            for fld in ('body', 'orelse', 'finalbody'):
+                if hasattr(st, fld) and isinstance(getattr(st, fld), list):
+                    setattr(st, fld, convert(getattr(st, fld), [block[k + 1:]] + later_blocks))
+            if isinstance(st, ast.While) and not st.orelse and st.body:
+                last = st.body[-1]
+                c = st.test
+                if isinstance(last, ast.AugAssign) and isinstance(last.target, ast.Name) and isinstance(last.op, ast.Add) and isinstance(last.value, ast.Constant) and last.value.value == 1 \
+                        and isinstance(c, ast.Compare) and len(c.ops) == 1 and isinstance(c.ops[0], (ast.Lt, ast.LtE)) and isinstance(c.left, ast.Name) and c.left.id == last.target.id:
+                    i = last.target.id
+                    bound = c.comparators[0]
+                    body = st.body[:-1]
+                    bad = any(isinstance(x, ast.Continue) for b in body for x in ast.walk(b)) \
+                        or any(isinstance(x, ast.Name) and x.id == i and isinstance(x.ctx, ast.Store) for b in body for x in ast.walk(b)) \
+                        or any(isinstance(x, ast.Name) and x.id == i for x in ast.walk(bound))
+                    bnames = {x.id for x in ast.walk(bound) if isinstance(x, ast.Name)}
+                    bad = bad or any(isinstance(x, ast.Name) and x.id in bnames and isinstance(x.ctx, ast.Store) for b in body for x in ast.walk(b))
+                    # the initial value: the nearest earlier statement of this block that binds i must be `i = <int>`
+                    init = None
+                    init_stmt = None
+                    for prev in reversed(out):
+                        if any(isinstance(x, ast.Name) and x.id == i and isinstance(x.ctx, ast.Store) for x in ast.walk(prev)):
+                            if isinstance(prev, ast.Assign) and len(prev.targets) == 1 and isinstance(prev.targets[0], ast.Name) and isinstance(prev.value, ast.Constant) \
+                                    and isinstance(prev.value.value, int) and not isinstance(prev.value.value, bool):
+                                init = prev.value.value
+                                init_stmt = prev
+                            break
+                        if any(isinstance(x, ast.Name) and x.id == i for x in ast.walk(prev)):
+                            break                          # read before the loop: keep everything as it is
+                    # i must not be read after the loop (a for leaves i at N - 1, the while at N)
+                    read_after = False
+                    for blk in [block[k + 1:]] + later_blocks:
+                        stop = False
+                        for nxt in blk:
+                            for x in ast.walk(nxt):
+                                if isinstance(x, ast.Name) and x.id == i:
+                                    if isinstance(x.ctx, ast.Load):
+                                        read_after = True
+                                    stop = True
+                            if stop:
+                                break
+                        if stop:
+                            break
+                    if not bad and init is not None and not read_after and body:
+                        hi = bound if isinstance(c.ops[0], ast.Lt) else ast.BinOp(left=bound, op=ast.Add(), right=ast.Constant(1))
+                        args = [hi] if init == 0 else [ast.Constant(init), hi]
+                        node = ast.For(target=ast.Name(id=i, ctx=ast.Store()), iter=ast.Call(func=ast.Name(id='range', ctx=ast.Load()), args=args, keywords=[]), body=body, orelse=[])
+                        ast.copy_location(node, st)
+                        ast.fix_missing_locations(node)
+                        if init_stmt is not None:
+                            out.remove(init_stmt)             # dead: the for statement binds i itself
+                        out.append(node)
+                        continue
+            out.append(st)
+        return out
+    fn.body = convert(fn.body, [])
+    return fn
+
+
 def normalise_index_loops(fn):
     """Source normalisation: `for i in range(len(E)): ... E[i] ...` (loop or comprehension clause; E built from names,
     attributes and subscripts; neither i nor E[...] assigned inside) reads the elements of E in order: it becomes
@@ -271,6 +340,7 @@ class Func:
         try:
             node = scalarise_dicts(node)
             node = normalise_updates(node)
+            node = normalise_counting_whiles(node)
             node = normalise_index_loops(node)
         except Exception:
             pass
